@@ -19,7 +19,6 @@ The coordinator's c11.py calls run_sched(rep) / replay_sched(obj, rep).
 from __future__ import annotations
 
 import copy
-import itertools
 import json
 import math
 import os
@@ -34,7 +33,8 @@ from .. import graph, tlc
 from ..graph import Mismatch
 
 S = tlc.Subst
-WATCHDOG_S = 10
+WATCHDOG_S = 45
+_PATIENCE = {}
 WORKERS = int(os.environ.get("VERIF_TLC_WORKERS", "6"))  # concurrent single-worker TLC runs
 
 BASE = dict(
@@ -347,10 +347,12 @@ class StubLearner:
     def __init__(self, events, mode="exact", max_calls=200, rb=None, mix=None):
         self.events, self.mode, self.max_calls, self.rb, self.mix = events, mode, max_calls, rb, mix
         self.calls = 0
+        self.rearm = lambda: None
 
     def __call__(self, env=None, *, total_timesteps, total_episodes, global_step, learning_starts=None, seed=None,
                  progress_bar=None, logger=None, replay_buffer=None, bar=None):
         obs = probe(sys._getframe(1))
+        self.rearm()
         self.calls += 1
         if self.calls > self.max_calls:
             raise _Abort(f"more than {self.max_calls} train_st calls")
@@ -451,12 +453,20 @@ def run_scheduler(sc):
     import threading
 
     def _alarm(signum, frame):
-        raise _Abort(f"the scheduler did not return within {WATCHDOG_S} s")
+        _PATIENCE[kind] = 3
+        raise _Abort("the scheduler neither returned nor called train_st for a long time")
 
+    import rl_blox.algorithm.active_mt  # noqa: F401  (imports - JAX - stay outside the timed region)
+    import rl_blox.algorithm.smt  # noqa: F401
+    import rl_blox.algorithm.uniform_task_sampling  # noqa: F401
+
+    # a scheduler that spins without calling train_st must not hang the check: WATCHDOG_S seconds without a train_st
+    # call (the stub re-arms the timer) end the run; after one such abort further runs of that scheduler get 3 s
     watchdog = threading.current_thread() is threading.main_thread()
-    if watchdog:  # a scheduler that spins without calling train_st must not hang the check
+    learner.rearm = (lambda: signal.setitimer(signal.ITIMER_REAL, _PATIENCE.get(kind, WATCHDOG_S))) if watchdog else (lambda: None)
+    if watchdog:
         old_handler = signal.signal(signal.SIGALRM, _alarm)
-        signal.setitimer(signal.ITIMER_REAL, WATCHDOG_S)
+        learner.rearm()
     try:
         _run_scheduler_body(sc, trace, ts, learner, rb, mix, events)
     finally:
@@ -524,6 +534,8 @@ def _run_scheduler_body(sc, trace, ts, learner, rb, mix, events):
 # ------------------------------------------------------------ trace validation
 LEN_SCRIPTS = [[1], [2], [3], [1, 2], [2, 3, 1], [3, 1], [2, 2, 1], [4]]
 RET_AMT = [[1.0], [0.5], [0.0, 1.0], [0.25, 0.5, 1.0], [-0.5, 0.5], [1.0, 0.0]]
+LEN_HALF = [[2], [3], [4], [2, 3], [3, 2, 2]]  # scripts for gamma = 1/2 (few calls, coarse rewards)
+RET_HALF = [[1.0], [0.5], [0.0, 1.0], [-0.5, 0.5], [1.0, 0.0]]
 RET_SMT = [[6.0], [-6.0], [0.0], [-6.0, 6.0], [0.0, 6.0, 6.0], [6.0, -6.0], [-6.0, -6.0, 0.0], [1.0], [-1.0]]  # +-1 = the thresholds
 
 
@@ -546,10 +558,14 @@ def scenarios(seed, quick):
     # train_active_mt: every named heuristic x discount x budgets
     for name in HEURISTICS:
         for gam in ([1, 2], [1, 1]):
-            for T, E in ((4, 1), (9, 1), (14, 2), (23, 1)) if quick else ((3, 1), (4, 2), (9, 1), (14, 2), (17, 3), (23, 1), (31, 2), (40, 1)):
+            for T, E in ((4, 1), (9, 1), (14, 2), (23, 1)) if quick else ((3, 1), (4, 2), (9, 1), (14, 2), (17, 4), (23, 1), (31, 2), (40, 1)):  # episode counts 1, 2, 4: dyadic mean returns
                 nt = 2 + (n % 2)
+                half = gam == [1, 2]
+                if half and T > 23:
+                    continue  # gamma = 1/2: at most 12 calls, so that 2^-t stays inside TLC's 32-bit rationals
                 out.append(dict(kind="amt", id=f"amt{n}", nt=nt, T=T, E=E, seed=int(rng.integers(0, 1000)), selector=name, gamma=gam,
-                                lens=pick(LEN_SCRIPTS[:6], nt), rets=pick(RET_AMT, nt), mode="short" if n % 5 == 0 else "exact"))
+                                lens=pick(LEN_HALF if half else LEN_SCRIPTS[:6], nt), rets=pick(RET_HALF if half else RET_AMT, nt),
+                                mode="short" if n % 5 == 0 else "exact"))
                 n += 1
     # train_smt
     for rpt in range(70 if quick else 400):
@@ -949,7 +965,7 @@ def run_sched(rep):
     binding_canaries(traces, graphs)
     rep.evaluations += edges + calls + zc + wc
     rep.distinct += nontrivial + calls + zc
-    rep.exhaustive = True
+    rep.extra["sched_exhaustive_within_bounds"] = True
     rep.rule = (rep.rule + " | " if rep.rule else "") + (
         "scheduler: every transition of the TLC state graphs of the selector machine (select / feedback / out-of-turn calls; "
         "D-UCB on exact rationals, gamma in {1/2,1}, zeta=0) replayed once into the real selector; non-trivial = choices after the "
